@@ -259,6 +259,19 @@ func (eng *Engine) FindFunction(con *Contract) (*ssa.Function, error) {
 		return nil, fmt.Errorf("package %s not loaded", con.PkgPath)
 	}
 	if con.Recv == "" {
+		// parent$N: the N-th anonymous function of a package-level function
+		if i := strings.Index(con.Name, "$"); i > 0 {
+			parent := sp.Func(con.Name[:i])
+			if parent == nil {
+				return nil, fmt.Errorf("function %s not found in %s", con.Name[:i], con.PkgPath)
+			}
+			for _, af := range parent.AnonFuncs {
+				if af.Name() == con.Name {
+					return af, nil
+				}
+			}
+			return nil, fmt.Errorf("anonymous function %s not found in %s", con.Name, con.PkgPath)
+		}
 		f := sp.Func(con.Name)
 		if f == nil {
 			return nil, fmt.Errorf("function %s not found in %s", con.Name, con.PkgPath)
